@@ -66,7 +66,7 @@ def run(ck):
             add(f"{tag} ({c})", b, routes=("direct", "compressed", "bytes"))
     # beyond the parallel / fast-path thresholds of the kernels: domains 2^12 and 2^13, all three routes
     S.cmd("pp", "giant", (1 << 13) + 8, 9)
-    for c in ([4095, 4096, 4100] if quick else [2047, 2048, 2049, 4095, 4096, 4097, 4100, 8190]):
+    for c in ([4095, 4096, 4100] if quick else [2047, 2048, 2049, 4095, 4096, 4097, 4100, 8186]):
         add(f"size {c} (large domain)", protocol.filler(c - 4, rng), pp="giant", routes=("direct", "compressed", "bytes"))
     # highly regular circuits (long runs of identical gates: their compressed description deflates 20x and more)
     for reps in ([400] if quick else [64, 250, 400, 3000]):
